@@ -118,21 +118,22 @@ def parseEntry? (s : String) : Option (String × List Rat) :=
   | _ => none
 
 /-- The `samples` setting of CustomDOE as written by the user. -/
+def parseCol? (t : String) : Option (String × Matrix) :=
+  match t.splitOn "=" with
+  | [n, v] => ((v.splitOn ";").mapM parseRatList?).map (fun m => (n, m))
+  | _ => none
+
+def one? {β : Type} (f : String → Option β) (g : List String) : Option β :=
+  match g with
+  | [t] => f t
+  | _ => none
+
 def parseCustom? (form : String) (groups : List (List String)) : Option CustomSamples :=
   let gs := groups.filter (fun g => !g.isEmpty)
   match form with
-  | "array" => (gs.mapM (fun g => match g with
-      | [r] => parseRatList? r
-      | _ => none)).map .array
-  | "dicts" => (gs.mapM (fun g => match g with
-      | [t] => (t.splitOn ";").mapM parseEntry?
-      | _ => none)).map .dicts
-  | "dict" => (gs.mapM (fun g => match g with
-      | [t] =>
-        match t.splitOn "=" with
-        | [n, v] => ((String.splitOn v ";").mapM parseRatList?).map (fun m => (n, m))
-        | _ => none
-      | _ => none)).map .dict
+  | "array" => (gs.mapM (one? parseRatList?)).map .array
+  | "dicts" => (gs.mapM (one? (fun t => (t.splitOn ";").mapM parseEntry?))).map .dicts
+  | "dict" => (gs.mapM (one? parseCol?)).map .dict
   | _ => none
 
 def customAnswer (head : List String) (groups : List (List String)) : String :=
